@@ -1,10 +1,14 @@
 // C19: BigInt<WORD,BITS> -- ONE inductive step per public operation (DESIGN 4.1):
-//   arbitrary pre-state (all words + index symbolic) satisfying Inv  ->  one operation with symbolic arguments,
-//   guarded by "the mathematical result fits"  ->  Inv again + agreement with a reference value M.
-//   M = unsigned __int128 when the total width is <= 128 bits, else (or with -DWORDWISE) a word array with
+//   arbitrary pre-state (all words + index symbolic) satisfying Inv  ->  one operation with symbolic arguments, guarded by
+//   "the mathematical result fits"  ->  Inv again + agreement with a reference value M.
+//   M = native u64 / unsigned __int128 when the total width is <= 64 / <= 128 bits, else (or with -DWORDWISE) a word array with
 //   carry-chain reference arithmetic written here.
-// defines: WORD (word type), WBITS (its width, 8/16/32/64), BITS (declared width); optional WORDWISE, DS_CONTRACT,
-//   NARROW/NBITS (target of the narrowing conversion), KF_EXCL_* / KF_ONLY_* (known findings)
+// defines: WORD (word type), WBITS (its width: 8/16/32/64), BITS (declared width);
+//   optional: IDX (index concrete instead of symbolic), WORDWISE (force the word-wise reference), NARROW (target type of the
+//   narrowing conversion), DS_CONTRACT (+DS_PRE_ASSUMED): Multiply/Divide over the contract of the double-word helper,
+//   DIV_BY_MULT (h_div: division-free oracle), RT_SUPPLY_MISSING (runtime helpers missing from q2c/vf_rt.h),
+//   KF_EXCL_<id> / KF_ONLY_<id> for the findings C19_ffb, C19_shl_zero, C19_mul_zero, C19_and_stale, C19_and_oob, C19_copy_stale,
+//   C19_div_odd.
 #include "BigInt.hpp"
 #include "vf.h"
 using namespace Qentem;
